@@ -939,6 +939,10 @@ def unit_apply_time_range(ctx):
         # property side: no row that the time selection would keep may be dropped, unless it is a
         # zero-length row on the edge (the known class); nothing is invented or reordered
         reason = None
+        if got.startswith("err"):
+            # every generated chunk is well formed: apply_time_range must not raise on it
+            # (CannotSplit on the right edge is to be swallowed, the left split is an early split)
+            reason = "raised (%s) on a well-formed chunk" % got
         if got.startswith("ok"):
             ids = [int(x) for x in got.split()[3].split(",")] if len(got.split()) > 3 else []
             allids = [r[2] for r in rows]
@@ -1178,7 +1182,11 @@ def replay(ctx, obj):
         a = impl.mk_array([tuple(x) for x in case["rows"]])
         ch = strax.Chunk(start=case["start"], end=case["end"], data=a, dtype=a.dtype, data_type="aa", data_kind="k",
                          run_id="7", target_size_mb=1)
-        res = strax.StorageBackend.apply_time_range(ch, tuple(case["time_range"]))
+        try:
+            res = strax.StorageBackend.apply_time_range(ch, tuple(case["time_range"]))
+        except Exception as e:  # noqa
+            print("impl: raised %s: %s on a well-formed chunk" % (type(e).__name__, str(e)[:100]))
+            return 1
         print("impl: [%d, %d) ids %s" % (res.start, res.end, impl.ids_of(res.data)))
         t0, t1 = case["time_range"]
         ids = impl.ids_of(res.data)
